@@ -24,6 +24,12 @@ def main():
         sys.exit(mod.replay(rep))
     ck = common.Check(a.pid, a.tier, a.seed, level=getattr(mod, "LEVEL", "proof"))
     try:
+        import alpha
+        gone = alpha.vanished_names(a.pid, common.REPO)
+        if gone:
+            raise common.TieBroken("private name(s) %s, through which the harness observes or drives the implementation, "
+                                   "no longer exist in the tree under test (and no consistent renaming was found)"
+                                   % ", ".join(gone))
         rc = mod.run(ck)
     except Exception as e:
         # The tie between model and code cannot be established on this tree (the harness reaches into the code and
